@@ -300,7 +300,13 @@ func (i *Interpreter) Define(clauseText string) error {
 	// like supporting removal of a particular clause. This would
 	// require retracting the associated facts from the store, though,
 	// which is currently not supported.
-	buffer := i.buffer + clauseText
+	// Every definition is a source text of its own: keep a line break between
+	// entries, so that a trailing comment cannot swallow the next entry.
+	buffer := i.buffer
+	if buffer != "" && !strings.HasSuffix(buffer, "\n") {
+		buffer += "\n"
+	}
+	buffer += clauseText
 	unit, err := parse.Unit(strings.NewReader(buffer))
 	if err != nil {
 		return fmt.Errorf("parsing failed: %v", err)
